@@ -35,6 +35,7 @@ func allEntries(h *harness) []*entry {
 	out = append(out, vcrEntries(h)...)
 	out = append(out, statusListRefreshEntry(h))
 	out = append(out, cacheEntries(h)...)
+	out = append(out, discoveryClientEntry(h))
 	return out
 }
 
